@@ -582,7 +582,9 @@ class Lexer:
                             source=self.source,
                             template=template_string,
                             start=start,
-                            stop=self.pos,
+                            # Like a plain string token, the span is the text
+                            # between the quotes.
+                            stop=self.pos - 1,
                         )
                     )
 
